@@ -6,6 +6,7 @@ import (
 	"go/constant"
 	"go/token"
 	"go/types"
+	"sort"
 	"strings"
 )
 
@@ -194,19 +195,10 @@ func quoteFuncs(c *Ctx, rel string) map[*types.Func]bool {
 		return out
 	}
 	for _, fd := range c.allFuncDecls(rel) {
-		seen := map[rune]bool{}
-		ast.Inspect(fd.Body, func(x ast.Node) bool {
-			if cc, ok := x.(*ast.CaseClause); ok {
-				for _, e := range cc.List {
-					if v := p.TypesInfo.Types[e].Value; v != nil && v.Kind() == constant.Int {
-						i, _ := constant.Int64Val(v)
-						seen[rune(i)] = true
-					}
-				}
-			}
-			return true
-		})
-		if seen['\\'] && seen['\''] {
+		pairs, _, _ := escapePairs(c, rel, fd)
+		_, bs := pairs['\\']
+		_, q := pairs['\'']
+		if bs && q {
 			out[p.TypesInfo.Defs[fd.Name].(*types.Func)] = true
 		}
 	}
@@ -358,7 +350,6 @@ func ruleR17f(c *Ctx) {
 	if ap == nil || pp == nil || fd == nil {
 		return
 	}
-	info := ap.TypesInfo
 	// the parser's table
 	un := map[rune]rune{}
 	if init := c.pkgVarInit("parse", "unescapes"); init != nil {
@@ -379,91 +370,57 @@ func ruleR17f(c *Ctx) {
 		c.fatalf("anchor: parse.unescapes table not resolved")
 		return
 	}
-	var sw *ast.SwitchStmt
-	ast.Inspect(fd.Body, func(x ast.Node) bool {
-		if s, ok := x.(*ast.SwitchStmt); ok && sw == nil {
-			sw = s
-		}
-		return true
-	})
-	if sw == nil {
-		c.fatalf("anchor: ast.quoteString has no switch over the character")
+	pairs, at, plainDefault := escapePairs(c, "ast", fd)
+	if len(pairs) == 0 {
+		c.fatalf("anchor: ast.quoteString's escaping table (a switch over the character, or a map it indexes) not found")
 		return
 	}
-	arms := 0
-	for _, cl := range sw.Body.List {
-		cc := cl.(*ast.CaseClause)
-		if cc.List == nil {
-			// default: exactly one write, of the character itself, under no condition
-			ok := len(cc.Body) == 1
-			if ok {
-				ok = false
-				if es, isES := cc.Body[0].(*ast.ExprStmt); isES {
-					if call, isCall := es.X.(*ast.CallExpr); isCall && len(call.Args) == 1 {
-						if se, isSel := call.Fun.(*ast.SelectorExpr); isSel && se.Sel.Name == "WriteRune" && exprKey(call.Args[0]) == exprKey(sw.Tag) {
-							ok = true
-						}
-					}
+	var chars []int
+	for ch := range pairs {
+		chars = append(chars, int(ch))
+	}
+	sort.Ints(chars)
+	for _, ci := range chars {
+		written := pairs[rune(ci)]
+		rs := []rune(written)
+		good := len(rs) == 2 && rs[0] == '\\' && un[rs[1]] == rune(ci)
+		c.check(good, "R17f", fmt.Sprintf("ast.quoteString case %q", rune(ci)), at, fmt.Sprintf("written as %q, which the parser reads back as %q", written, rune(ci)),
+			fmt.Sprintf("written as %q, which the parser's escape table does not read back as %q", written, rune(ci)))
+	}
+	c.floor("R17f", "escaping arms of ast.quoteString", 5, len(chars))
+	switch plainDefault {
+	case 1:
+		c.ok("R17f", "ast.quoteString default", at, "every other character is written as itself")
+	default:
+		// a formatted \u escape must be bounded to four hex digits (a condition naming U+FFFF / 0x10000)
+		info := ap.TypesInfo
+		hasU, bounded := false, false
+		ast.Inspect(fd.Body, func(y ast.Node) bool {
+			switch n := y.(type) {
+			case *ast.BasicLit:
+				if strings.Contains(n.Value, `\u%`) {
+					hasU = true
 				}
-			}
-			switch {
-			case ok:
-				c.ok("R17f", "ast.quoteString default", cc.Pos(), "every other character is written as itself")
-			default:
-				// a formatted \u escape must be bounded to four hex digits (a condition naming U+FFFF / 0x10000)
-				hasU, bounded := false, false
-				ast.Inspect(&ast.BlockStmt{List: cc.Body}, func(y ast.Node) bool {
-					switch n := y.(type) {
-					case *ast.BasicLit:
-						if strings.Contains(n.Value, `\u%`) {
-							hasU = true
-						}
-					case *ast.IfStmt:
-						ast.Inspect(n.Cond, func(z ast.Node) bool {
-							if e, isE := z.(ast.Expr); isE {
-								if tv, has := info.Types[e]; has && tv.Value != nil && tv.Value.Kind() == constant.Int {
-									if v, exact := constant.Int64Val(tv.Value); exact && (v == 0xFFFF || v == 0x10000) {
-										bounded = true
-									}
-								}
+			case *ast.IfStmt:
+				ast.Inspect(n.Cond, func(z ast.Node) bool {
+					if e, isE := z.(ast.Expr); isE {
+						if tv, has := info.Types[e]; has && tv.Value != nil && tv.Value.Kind() == constant.Int {
+							if v, exact := constant.Int64Val(tv.Value); exact && (v == 0xFFFF || v == 0x10000) {
+								bounded = true
 							}
-							return true
-						})
+						}
 					}
 					return true
 				})
-				if hasU && !bounded {
-					c.bad("R17f", "ast.quoteString default", cc.Pos(), "characters without an escape of their own are written with a formatted \\u escape that is not limited to U+FFFF: above it the escape has more than four hex digits, which the parser reads as a four-digit escape followed by a literal digit, so the printed literal parses back to a different string")
-				} else {
-					c.unk("R17f", "ast.quoteString default", cc.Pos(), "the default arm is not the plain write of the character; its agreement with the parser's unquoting is not decided")
-				}
 			}
-			continue
-		}
-		for _, e := range cc.List {
-			tv := info.Types[e]
-			if tv.Value == nil {
-				continue
-			}
-			v, _ := constant.Int64Val(tv.Value)
-			arms++
-			written := ""
-			ast.Inspect(&ast.BlockStmt{List: cc.Body}, func(y ast.Node) bool {
-				if call, ok := y.(*ast.CallExpr); ok && len(call.Args) == 1 {
-					if atv := info.Types[call.Args[0]]; atv.Value != nil && atv.Value.Kind() == constant.String {
-						written += constant.StringVal(atv.Value)
-					}
-				}
-				return true
-			})
-			key := fmt.Sprintf("ast.quoteString case %q", rune(v))
-			rs := []rune(written)
-			good := len(rs) == 2 && rs[0] == '\\' && un[rs[1]] == rune(v)
-			c.check(good, "R17f", key, cc.Pos(), fmt.Sprintf("written as %q, which the parser reads back as %q", written, rune(v)),
-				fmt.Sprintf("written as %q, which the parser's escape table does not read back as %q", written, rune(v)))
+			return true
+		})
+		if hasU && !bounded {
+			c.bad("R17f", "ast.quoteString default", at, "characters without an escape of their own are written with a formatted \\u escape that is not limited to U+FFFF: above it the escape has more than four hex digits, which the parser reads as a four-digit escape followed by a literal digit, so the printed literal parses back to a different string")
+		} else {
+			c.unk("R17f", "ast.quoteString default", at, "characters without an escape of their own are not simply written as themselves; agreement with the parser's unquoting is not decided")
 		}
 	}
-	c.floor("R17f", "escaping arms of ast.quoteString", 5, arms)
 }
 
 // R17g: the float printer writes exponents with an explicit sign (strconv.FormatFloat, format 'g': 1e+06,
@@ -529,4 +486,121 @@ func ruleR17g(c *Ctx) {
 		return true
 	})
 	c.floor("R17g", "exponent branches in scanNumber", 1, n)
+}
+
+// escapePairs extracts the escaping table a quoting function applies to each character: from a switch over
+// the character whose arms write constant strings, or from a package-level map[rune]string the function
+// indexes by the character. It also reports where the table sits and whether every other character is
+// written as itself (the default arm, or the else of the table look-up, is a plain WriteRune of the character).
+func escapePairs(c *Ctx, rel string, fd *ast.FuncDecl) (pairs map[rune]string, at token.Pos, plainDefault int) {
+	p := c.Pkgs[rel]
+	info := p.TypesInfo
+	pairs = map[rune]string{}
+	plainDefault = -1 // unknown
+	isPlainWrite := func(body []ast.Stmt, ch string) bool {
+		if len(body) != 1 {
+			return false
+		}
+		es, ok := body[0].(*ast.ExprStmt)
+		if !ok {
+			return false
+		}
+		call, ok := es.X.(*ast.CallExpr)
+		if !ok || len(call.Args) != 1 {
+			return false
+		}
+		se, ok := call.Fun.(*ast.SelectorExpr)
+		return ok && se.Sel.Name == "WriteRune" && exprKey(call.Args[0]) == ch
+	}
+	// (a) switch form
+	ast.Inspect(fd.Body, func(x ast.Node) bool {
+		sw, ok := x.(*ast.SwitchStmt)
+		if !ok || sw.Tag == nil || len(pairs) > 0 {
+			return true
+		}
+		local := map[rune]string{}
+		def := -1
+		for _, cl := range sw.Body.List {
+			cc := cl.(*ast.CaseClause)
+			if cc.List == nil {
+				def = 0
+				if isPlainWrite(cc.Body, exprKey(sw.Tag)) {
+					def = 1
+				}
+				continue
+			}
+			written := ""
+			ast.Inspect(&ast.BlockStmt{List: cc.Body}, func(y ast.Node) bool {
+				if call, ok := y.(*ast.CallExpr); ok && len(call.Args) == 1 {
+					if atv := info.Types[call.Args[0]]; atv.Value != nil && atv.Value.Kind() == constant.String {
+						written += constant.StringVal(atv.Value)
+					}
+				}
+				return true
+			})
+			for _, e := range cc.List {
+				if v := info.Types[e].Value; v != nil && v.Kind() == constant.Int {
+					i, _ := constant.Int64Val(v)
+					local[rune(i)] = written
+				}
+			}
+		}
+		if len(local) > 0 {
+			pairs, at, plainDefault = local, sw.Pos(), def
+		}
+		return true
+	})
+	if len(pairs) > 0 {
+		return
+	}
+	// (b) table form: if esc, ok := table[ch]; ok { write(esc) } else { WriteRune(ch) }
+	ast.Inspect(fd.Body, func(x ast.Node) bool {
+		ifs, ok := x.(*ast.IfStmt)
+		if !ok || ifs.Init == nil || len(pairs) > 0 {
+			return true
+		}
+		as, ok := ifs.Init.(*ast.AssignStmt)
+		if !ok || len(as.Rhs) != 1 {
+			return true
+		}
+		ix, ok := ast.Unparen(as.Rhs[0]).(*ast.IndexExpr)
+		if !ok {
+			return true
+		}
+		id, ok := ast.Unparen(ix.X).(*ast.Ident)
+		if !ok {
+			return true
+		}
+		v, ok := info.Uses[id].(*types.Var)
+		if !ok || v.Parent() != v.Pkg().Scope() {
+			return true
+		}
+		init := c.pkgVarInit(rel, v.Name())
+		cl, ok := init.(*ast.CompositeLit)
+		if !ok {
+			return true
+		}
+		local := map[rune]string{}
+		for _, el := range cl.Elts {
+			kv, ok := el.(*ast.KeyValueExpr)
+			if !ok {
+				continue
+			}
+			kvv, vv := info.Types[kv.Key].Value, info.Types[kv.Value].Value
+			if kvv != nil && vv != nil && vv.Kind() == constant.String {
+				i, _ := constant.Int64Val(kvv)
+				local[rune(i)] = constant.StringVal(vv)
+			}
+		}
+		if len(local) == 0 {
+			return true
+		}
+		def := 0
+		if blk, ok := ifs.Else.(*ast.BlockStmt); ok && isPlainWrite(blk.List, exprKey(ix.Index)) {
+			def = 1
+		}
+		pairs, at, plainDefault = local, ifs.Pos(), def
+		return true
+	})
+	return
 }
